@@ -235,8 +235,12 @@ func cmdCheck(args []string) {
 		tot := 0.0
 		backend := ""
 		maxBytes := 0
+		maxQ := 0.0
 		for _, r := range g.results {
 			tot += r.r.Seconds
+			if r.r.Seconds > maxQ {
+				maxQ = r.r.Seconds
+			}
 			if r.r.Solver != "" {
 				backend = r.r.Solver
 			}
@@ -245,7 +249,7 @@ func cmdCheck(args []string) {
 			}
 		}
 		solverTime += tot
-		entry := map[string]interface{}{"name": name, "paths": len(g.results), "backend": backend, "seconds": round3(tot), "vc_bytes": maxBytes, "status": "discharged"}
+		entry := map[string]interface{}{"name": name, "paths": len(g.results), "backend": backend, "seconds": round3(tot), "slowest_query_s": round3(maxQ), "vc_bytes": maxBytes, "status": "discharged"}
 		if g.ok {
 			discharged++
 			byBackend[backend]++
